@@ -167,21 +167,28 @@ def activate(ctx):
 
 
 class Path:
+    """one explored path.  The lists are the context's own (not copies): model objects created
+    lazily while a postcondition is evaluated (reduction objects) still register their axioms."""
+
     def __init__(self, ctx, kind, value, env):
-        self.pc = list(ctx.pc)
-        self.aux = list(ctx.aux)
-        self.facts = list(ctx.facts)
-        self.used = set(ctx.used)
+        self.ctx = ctx
+        self.pc = ctx.pc
+        self.aux = ctx.aux
+        self.facts = ctx.facts
+        self.used = ctx.used
         self.decisions = list(ctx.decisions)
         self.kind = kind  # 'return' | 'raise'
         self.value = value  # return value or the exception instance
         self.env = env  # whatever the harness's setup returned (symbolic inputs)
-        self.index_funcs = list(ctx.index_funcs)
-        self.index_seeds = list(ctx.index_seeds)
-        self.notes = list(ctx.notes)
-        self.stats = list(getattr(ctx, "stats", []))
-        self.reductions = list(getattr(ctx, "reductions", []))
-        self.ghost = dict(getattr(ctx, "ghost", {}))
+        self.index_funcs = ctx.index_funcs
+        self.index_seeds = ctx.index_seeds
+        self.notes = ctx.notes
+        if not hasattr(ctx, "stats"):
+            ctx.stats = []
+        if not hasattr(ctx, "reductions"):
+            ctx.reductions = []
+        self.stats = ctx.stats
+        self.reductions = ctx.reductions
 
     @property
     def raised(self):
